@@ -67,7 +67,19 @@ Many(n) == [i \in 1..n |-> [t |-> "plain", name |-> "X-H" \o ToString(i), ln |->
 ManyCases == {Req("GET", "/", "1.1", <<P("Host", "h")>> \o Many(n) \o <<P("User-Agent", UA)>>) : n \in {96, 97, 98}}
              \cup {Resp("1.1", 200, "OK", Many(n) \o <<P("Server", "s")>>) : n \in {97, 98, 99}}
 
-Cases == CASE Fam = "start" -> StartCases [] Fam = "hdrs" -> HdrCases [] Fam = "ows" -> OwsCases [] Fam = "cookie" -> CookieCases
+\* ---- dup: repeated identity-bearing headers.  Which occurrence is split out is a convention of the code that Http1.tla records
+\* (CodeDerived: the LAST Cookie and Referer header, the FIRST User-Agent and Accept-Language header)
+CkA == [t |-> "cookie", name |-> "Cookie", ln |-> "cookie", pairs |-> <<[n |-> "stale", v |-> <<"1">>]>>]
+CkB == [t |-> "cookie", name |-> "cookie", ln |-> "cookie", pairs |-> <<[n |-> "session", v |-> <<"abc">>], [n |-> "theme", v |-> <<"dark">>]>>]
+CkC == [t |-> "cookie", name |-> "COOKIE", ln |-> "cookie", pairs |-> <<[n |-> "z", v |-> <<>>]>>]
+DupCases ==
+  {Req("GET", "/", "1.1", <<P("Host", "h")>> \o cs \o <<P("User-Agent", UA)>> \o rs) :
+     cs \in {<<CkA, CkB>>, <<CkB, CkA>>, <<CkA, P("Accept", "*/*"), CkB, CkC>>, <<CkA, CkA>>},
+     rs \in {<<>>, <<P("Referer", "http://first.example/"), P("Referer", "http://second.example/")>>, <<P("referer", "a"), P("Accept", "x"), P("REFERER", "b")>>}}
+  \cup {Req("GET", "/", "1.1", <<P("User-Agent", "first/1.0"), P("Host", "h"), P("user-agent", "second/2.0"), Lg(<<Item(3, 1, FALSE)>>), Lg(<<Item(1, 1, FALSE)>>)>>)}
+  \cup {Resp("1.1", 200, "OK", <<P("Server", "first"), P("Content-Type", "a"), P("server", "second"), P("Set-Cookie", "a=1"), P("Set-Cookie", "b=2")>>)}
+
+Cases == CASE Fam = "dup" -> DupCases [] Fam = "start" -> StartCases [] Fam = "hdrs" -> HdrCases [] Fam = "ows" -> OwsCases [] Fam = "cookie" -> CookieCases
            [] Fam = "lang" -> LangCases [] Fam = "many" -> ManyCases
 CaseSeq == SetToSeq(Cases)
 
